@@ -346,7 +346,11 @@ def block_diagonalize(
                 continue
             block = H[(i, j, *zero_order)]
             if block is not zero:
-                if isinstance(block, (sympy.MatrixBase, sympy.Expr)):
+                if isinstance(block, (sympy.MatrixBase, sympy.Expr)) and (
+                    block.is_zero_matrix
+                    if isinstance(block, sympy.MatrixBase)
+                    else block.is_zero
+                ) is not False:
                     # This may happen if the expression wasn't simplified enough.
                     warn(
                         "Cannot confirm that the unperturbed Hamiltonian is "
